@@ -213,6 +213,33 @@ def run(chk):
         cc = [n for n in ast.walk(loops[0]) if isinstance(n, ast.Call) and dotted(n.func) == 'blosc.compress']
         ok6 = ok6 and len(cc) == 1 and unparse(cc[0].args[0]) == f'data[{i}:{i} + {step}]'
     chk.check(ok6, 'C14-S6', AS, C, 'frames data[i:i+nelem], i = 0, nelem, ... tile the data', f'step {step}', 'writer frames do not tile the input', node=loops[0] if loops else cfn)
+    # the frame length is at least one item for every block size (a step of 0 makes range() raise before anything is written)
+    if ok6:
+        sd = [n for n in walk_no_nested(cfn) if isinstance(n, ast.Assign) and len(n.targets) == 1 and unparse(n.targets[0]) == step]
+        v = sd[-1].value if sd else None
+        pos = False
+        why = f'{step} = {unparse(v) if v is not None else None}'
+        if isinstance(v, ast.Call) and dotted(v.func) == 'max' and len(v.args) == 2:
+            cs = [a for a in v.args if isinstance(a, ast.Constant) and isinstance(a.value, int) and a.value >= 1]
+            pos = bool(cs)
+        elif isinstance(v, ast.Constant) and isinstance(v.value, int) and v.value >= 1:
+            pos = True
+        elif v is not None:
+            # x // y + 1, (x + y - 1) // y with a guard ... : only the explicit forms are recognised; a bare floor division can be 0
+            txt = unparse(v).replace(' ', '')
+            guards = [n for n in walk_no_nested(cfn) if isinstance(n, (ast.If, ast.Assert)) and step in unparse(n.test) and n.lineno > sd[-1].lineno
+                      and n.lineno < loops[0].lineno]
+            for g in guards:
+                t = unparse(g.test).replace(' ', '')
+                if isinstance(g, ast.Assert) and t in (f'{step}>=1', f'{step}>0'):
+                    pos = True
+                if isinstance(g, ast.If) and t in (f'{step}<1', f'{step}<=0', f'{step}==0', f'not{step}') and g.body and \
+                        (isinstance(g.body[-1], ast.Raise) or (isinstance(g.body[-1], ast.Assign) and unparse(g.body[-1].targets[0]) == step
+                                                               and isinstance(g.body[-1].value, ast.Constant) and g.body[-1].value.value >= 1)):
+                    pos = True
+        chk.check(pos, 'C14-S6', AS, C, 'frame length in items is at least 1 for every block size and item size', why,
+                  f'{why}: for compression_block_size < itemsize the step of the frame loop is 0 and range() raises ValueError before any frame is written '
+                  '(compress is not the identity for "any ... item size and compression block size")', node=sd[-1] if sd else loops[0], nontrivial=False)
     ys = [n for n in walk_no_nested(cfn) if isinstance(n, ast.Yield)]
     oky = len(ys) == 1 and unparse(ys[0].value) == 'header + compressed' and any(ys[0] in list(ast.walk(l)) for l in loops)
     chk.check(oky, 'C14-S6', AS, C, 'one header immediately before each compressed frame', '', f'writer yields {unparse(ys[0].value) if ys else None}', node=ys[0] if ys else cfn)
